@@ -35,6 +35,12 @@ def groSlices (w : Nat) : List RSlice :=
   (groNames.zip (groTypes.zip (groSliceBounds 0 (groWidths ++ [w, w, w])))).map
     fun (n, t, b) => (⟨n, t, b.1, b.2⟩ : RSlice)
 
+/-- … once it has counted six points (velocities) -/
+def groSlicesV (w : Nat) : List RSlice :=
+  ((groNames ++ groVelNames).zip ((groTypes ++ ([.float, .float, .float] : List RTy)).zip
+      (groSliceBounds 0 (groWidths ++ [w, w, w] ++ [w, w, w])))).map
+    fun (n, t, b) => (⟨n, t, b.1, b.2⟩ : RSlice)
+
 /-! ## record_length_const on the extracted format strings -/
 
 theorem atom_fmt_allTrunc : allTrunc atomFmt = true ∧ allTrunc terFmt = true ∧ allTrunc groFmt = true := by
@@ -194,7 +200,7 @@ theorem pdb_atom_roundtrip (excl : List (List Char)) (serial : Nat) (a : Atom)
   have hp : pdb.readerFields = pdbReaderFields := rfl
   rw [hp, h]
   rcases halt with halt | halt <;>
-    simp [pdbAtomOfProps, Props.str, Props.int, Props.dec, Props.get, List.find?, halt, hex, hel, bind, Except.bind,
+    simp [pdbAtomOfProps, Props.isNan, Props.str, Props.int, Props.dec, Props.get, List.find?, halt, hex, hel, bind, Except.bind,
       pure, Except.pure]
 
 /-! ## non-vacuity: concrete instances of the hypotheses used above -/
